@@ -2,7 +2,7 @@
 # developer helper: for every seeded change apply patch.diff to /repo, run the property's quick check, undo; record in seeded/<name>/applied.out
 cd /verif
 for d in seeded/*/; do
-  n=$(basename $d); p=$(/venv/bin/python -c "import json;print(json.load(open('$d/meta.json'))['property'])")
+  n=$(basename $d); p=$(/venv/bin/python -c "import json;print(json.load(open('$d/meta.json')).get('property',''))"); [ -n "$p" ] || continue
   if git -C /repo apply --check $PWD/$d/patch.diff 2>/dev/null; then
     git -C /repo apply $PWD/$d/patch.diff
     harness/run.py --property $p --tier quick > $d/applied.out 2>&1; rc=$?
